@@ -946,6 +946,23 @@ func (c *Ctx) stageInterleave(refs map[refKey]*Ref, keys []refKey) {
 		}
 	}
 	c.Ev.Probes["interleavings_at_package_level_writes"] = nSys
+	// sweep: every document against itself, once (same URLs, same names, same everything: the
+	// pair most likely to meet in a cache keyed too coarsely; and the shared-write rule does not
+	// depend on where the switch falls, so one run per document decides it)
+	nSelf := 0
+	seenSelf := map[string]bool{}
+	for _, k := range keys {
+		if seenSelf[k.Scenario] || refs[k].Cfg.Engine != "pango" {
+			continue
+		}
+		seenSelf[k.Scenario] = true
+		ic := icase{spec: &Spec{ID: "ilself/" + k.Scenario, Order: OrderPlan{Mode: "canon"}}, ks: []refKey{k, k}}
+		ic.spec.Tasks = [][]Op{docOps(refs[k].Sc, refs[k].Cfg, "", false), docOps(refs[k].Sc, refs[k].Cfg, "", false)}
+		ic.spec.Preempt = []Preempt{{Step: 1 + refs[k].Res.Steps/2, To: 1}}
+		cases = append(cases, ic)
+		nSelf++
+	}
+	c.Ev.Probes["interleavings_of_a_document_with_itself"] = nSelf
 	specs := make([]*Spec, len(cases))
 	for i := range cases {
 		specs[i] = cases[i].spec
